@@ -334,7 +334,7 @@ class Ctx:
 class Engine:
     """symbolic execution of one function under a contract"""
 
-    def __init__(self, repo, registry, schema, lib, feas_timeout_ms=400, max_paths=4000):
+    def __init__(self, repo, registry, schema, lib, feas_timeout_ms=250, max_paths=4000):
         self.repo = repo
         self.registry = registry     # (file, qualname) -> Contract
         self.schema = schema         # field name -> Ty
